@@ -1,10 +1,14 @@
 package broker
 
-import "verif/harness/core"
+import (
+	"fmt"
+
+	"verif/harness/core"
+)
 
 // C08: retained messages (HIST part; the concurrent part is in the SCHED checks).
 func C08(c *core.Ctx) {
-	c.Rep.Bound = "HIST: retained / non-retained / empty-payload publishes at QoS 0-2 on three topics (one with an 8000-byte payload, two that differ in nothing but the QoS), ring-wrapping filler traffic, subscriptions with literal and wildcard filters (single and multi-filter), in-process Publish/Subscribe; BFS de-duplicated on model + implementation state, depth 5 (quick) / 7 (thorough); plus all sequences of depth 3/4 on a populated broker; SCHED: retained replace || subscribe (QoS 0/1) and retained publish || subscriber teardown, every schedule deviating from the default at <= 1 (quick) / 2 (thorough) points"
+	c.Rep.Bound = "HIST: retained / non-retained / empty-payload publishes at QoS 0-2 on three topics (one with an 8000-byte payload, two that differ in nothing but the QoS), ring-wrapping filler traffic, subscriptions with literal and wildcard filters (single and multi-filter), in-process Publish/Subscribe; BFS de-duplicated on model + implementation state, depth 5 (quick) / 7 (thorough); plus all sequences of depth 3/4 on a populated broker; the same searches one level shallower with the server's QoS cap at 1 and at 0; SCHED: retained replace || subscribe (QoS 0/1) and retained publish || subscriber teardown, every schedule deviating from the default at <= 1 (quick) / 2 (thorough) points"
 	c.Rep.Rule = "after every action: each new subscription receives exactly the matching retained messages (retain=1, QoS min(stored, granted), payload byte-identical), live forwards carry retain=0, an empty retained payload clears; distinct = canonical model + retained tree states"
 	pr := func(topic string, q byte, id uint16, payload string) Action {
 		a := Action{Kind: "pub", Client: "P", Topic: topic, QoS: q, ID: id, Payload: payload, Retain: true}
@@ -46,6 +50,22 @@ func C08(c *core.Ctx) {
 	seq.Search(c)
 	if c.HasViolation() || c.Expired() {
 		return
+	}
+	// the server grants less than what is requested (topics.MaxQosAllowed 1 and 0): a retained
+	// message goes to a new subscription at min(stored, GRANTED), not min(stored, requested)
+	for _, mq := range []byte{1, 0} {
+		cfg := Config{MaxQos: mq, MaxQosSet: true}
+		capped := &HistSpec{Name: fmt.Sprintf("retained-maxqos%d", mq), Ops: ops, Depth: depth - 1, Dedup: true, Comps: comps, Prefix: prefix, ExtraKey: wrapKey, Cfg: cfg}
+		capped.Search(c)
+		if c.HasViolation() || c.Expired() {
+			return
+		}
+		cseq := &HistSpec{Name: fmt.Sprintf("retained-sequences-maxqos%d", mq), Ops: ops, Depth: sd - 1, Dedup: false, Comps: comps, Cfg: cfg,
+			Prefix: []Action{conn("P", "p", true), pr("a", 2, 1, "old"), pr("a/b", 1, 2, "old-ab"), conn("S", "s", true)}}
+		cseq.Search(c)
+		if c.HasViolation() || c.Expired() {
+			return
+		}
 	}
 	c08sched(c)
 }
